@@ -233,6 +233,15 @@ structure CSR where
   exts    : List String := [] -- any other requested extension or attribute
   deriving DecidableEq, Repr
 
+/-- `util.GenCSR` / `GenCSRTemplate` (generate_csr.go), the CSR an Istio agent - and `IstioCA.GenKeyCert` -
+    sends, as far as `sign` can observe it: a proof of possession for a fresh key, the hosts as the
+    requested SAN, the dual-use CommonName (first host, if it fits 64 bytes) iff asked for, the
+    organisation - and nothing else (no CA request, no further extension). -/
+def genCSR (pubKey : String) (hosts : List String) (org : String) (dualUse : Bool) : CSR :=
+  { pubKey := pubKey,
+    cn := if dualUse ∧ !hosts.isEmpty then (dualUseCN (join ',' hosts)).getD "" else "",
+    subject := [org], sans := hosts }
+
 /-- `x509.Certificate` template fields set by `genCertTemplateFromCSR`. -/
 structure Template where
   subjectCN   : String
